@@ -85,7 +85,7 @@ def cases(tier, seed):
                                        'method': meth, 'overwrite': ow, 'prelude': prelude}
     # the handle itself was opened through a path that contains a symbolic link (to the parent, or to the array directory)
     for kind, names in (('Array', ARRAY_NAMES), ('RaggedArray', RAGGED_NAMES)):
-        for via in ('symlinked_parent', 'symlink_to_array', 'symlink_dotdot'):
+        for via in ('symlinked_parent', 'symlink_to_array', 'symlink_dotdot', 'constituent_symlink'):
             for name in names:
                 for sp in ('plain', 'Path', 'dot', 'detour', 'parentdetour'):
                     for meth in METHODS:
@@ -109,6 +109,14 @@ def make(env, d, kind, with_md, via=None):
         if via == 'symlink_to_array':
             os.symlink(p, d / 'arrlink')
             return opener(d / 'arrlink', accessmode='r+'), p
+        if via == 'constituent_symlink':
+            # a constituent of the array lives elsewhere (another volume) and is linked in
+            import shutil
+            (d / 'vol2').mkdir()
+            name = 'arrayvalues.bin' if kind == 'Array' else 'values'
+            shutil.move(p / name, d / 'vol2' / name)
+            os.symlink(d / 'vol2' / name, p / name)
+            return opener(p, accessmode='r+'), p
         (d / 'real' / 'projA').mkdir()
         os.symlink(d / 'real' / 'projA', d / 'current')
         return opener(d / 'current' / '..' / 'arr', accessmode='r+'), p
@@ -162,13 +170,14 @@ def run_case(case, env):
                 a.datadir.read_txt(fn)
             except Exception:
                 pass
-        before = snapshot(p)
+        snaproot = d if case.get('via') else p      # with links involved, the link targets are watched too
+        before = snapshot(snaproot)
         raised = None
         try:
             invoke(a.datadir, case['method'], fn, case['overwrite'])
         except Exception as e:
             raised = e
-        after = snapshot(p)
+        after = snapshot(snaproot)
         res.count('mon.protected_calls')
         res.count('mon.tree_unchanged')
         res.dim('method', case['method'])
